@@ -95,8 +95,19 @@ pub fn section_idx(s: Section) -> u8 {
 /// Only valid UTF-8 (optionally with UTF-8 BOM) inputs are judged; others return `SKIP`.
 pub fn spec_frame(bytes: &[u8]) -> Option<(i32, Vec<(u8, String)>)> {
     let bytes = bytes.strip_prefix(&[0xEF, 0xBB, 0xBF]).unwrap_or(bytes);
-    if bytes.starts_with(&[0xFF, 0xFE]) || bytes.starts_with(&[0xFE, 0xFF]) {
-        return None;
+    for (bom, le) in [([0xFF, 0xFE], true), ([0xFE, 0xFF], false)] {
+        if let Some(body) = bytes.strip_prefix(&bom) {
+            // UTF-16 with BOM: transcode with std (valid, even-length bodies only), then the same reading
+            if body.len() % 2 != 0 {
+                return None;
+            }
+            let units: Vec<u16> = body
+                .chunks_exact(2)
+                .map(|p| if le { u16::from_le_bytes([p[0], p[1]]) } else { u16::from_be_bytes([p[0], p[1]]) })
+                .collect();
+            let text = String::from_utf16(&units).ok()?;
+            return Some(spec_frame_text(&text));
+        }
     }
     let text = std::str::from_utf8(bytes).ok()?;
     Some(spec_frame_text(text))
